@@ -378,3 +378,37 @@ Proof.
   unfold decode. pose proof (decode_loop_not_err 18 ENCODE_REGISTERS enc 8 e) as H.
   destruct (decode_loop 18 ENCODE_REGISTERS enc 8); cbn; try discriminate. exact H.
 Qed.
+
+(* ---------- totality for every rule a producer can emit, stated on the encoding bound alone ---------- *)
+Definition rule_ok (r : rule) : Prop :=
+  match r with OffsetSpAndPopRegisters _ _ e => e < 40320 | _ => True end.
+
+Lemma exec_total_ok ru first rg m : rule_ok ru -> returns (fst (exec ra_addr_checked ru first rg m)) = true.
+Proof.
+  intros Hp. destruct ru; cbn [exec].
+  - reflexivity.
+  - destruct (add64c (sp rg) 8); [apply exec_tail_checked_returns | reflexivity].
+  - destruct first.
+    + destruct (add64c (sp rg) 8); [apply exec_tail_checked_returns | reflexivity].
+    + destruct (bp rg =? 0); [reflexivity|].
+      destruct (add64c (bp rg) 16); [|reflexivity].
+      destruct (n <=? sp rg); [reflexivity|].
+      destruct (m (bp rg)); [apply exec_tail_checked_returns | reflexivity].
+  - destruct (add64c (sp rg) (k * 8)); [apply exec_tail_checked_returns | reflexivity].
+  - destruct (add64c (sp rg) (k * 8)); [|reflexivity].
+    destruct (adds64c (sp rg) (y * 8)); [|reflexivity].
+    destruct (m n0); [apply exec_tail_checked_returns|].
+    destruct (first && (n0 <? sp rg)); [apply exec_tail_checked_returns | reflexivity].
+  - destruct (bp rg =? 0); [reflexivity|].
+    destruct (add64c (bp rg) 16); [|reflexivity].
+    destruct (n <=? sp rg); [reflexivity|].
+    destruct (m (bp rg)); [apply exec_tail_checked_returns | reflexivity].
+  - destruct (add64c (sp rg) (k * 8)); [|reflexivity].
+    cbn [rule_ok] in Hp.
+    destruct (decode_ok cnt enc) as [l [Hd _]]; [exact Hp|]. rewrite Hd.
+    pose proof (pop_loop_returns l n rg m) as Hpl.
+    destruct (pop_loop l n rg m) as [r rg2]. cbn [fst] in Hpl.
+    destruct r; try discriminate; cbn; try reflexivity.
+    destruct (add64c a 8); [apply exec_tail_checked_returns | reflexivity].
+Qed.
+
